@@ -848,3 +848,29 @@ package httpserver
 //@   requires forall(k, 0, len(sites), sites[k] != nil)
 //@   ensures [fallback_hosts_are_hosts_of_fallback_sites] forall(k, 0, len(result), exists(j, 0, len(sites), sites[j].FallbackSite && result[k] == sites[j].Addr.Host))
 //@   loop 1 invariant 0 <= #i && #i <= len(sites) && forall(k, 0, len(fallbacks), exists(j, 0, #i, sites[j].FallbackSite && fallbacks[k] == sites[j].Addr.Host))
+
+//@ unit standardize_address frames=on props=C01,C15,C06,C11 nilchecks=on filter=`httpserver\.standardizeAddress$`
+//@ // The structured address every site key is turned into (C01 host/path routing, C15/C06 which port and scheme a site is
+//@ // on, C11 for every string a Casketfile can contain): the key is kept as written in Original; a scheme fixes a port and
+//@ // never contradicts it; a well-known port fixes the scheme when none was written; no input makes it panic.
+//@ use @verif/specs/stdlib.spec:stdlib
+//@ extern strconv.Itoa
+//@   pure
+//@   ensures len(result) >= 1
+//@ extern strings.Replace
+//@   pure
+//@ extern net/url.Parse
+//@   ensures result1 == nil ==> result0 != nil
+//@ extern net.SplitHostPort
+//@ extern fmt.Errorf
+//@   ensures result != nil
+//@ define hp() string = strconv.Itoa(certmagic.HTTPPort)
+//@ define hsp() string = strconv.Itoa(certmagic.HTTPSPort)
+//@ func standardizeAddress
+//@   // the configured HTTP and HTTPS ports differ (they are two listeners); with equal ports ":80" would be both
+//@   requires [distinct_well_known_ports] hp() != hsp()
+//@   modifies URL.Scheme
+//@   ensures [key_kept_as_written] result1 == nil ==> result0.Original == str
+//@   ensures [scheme_fixes_a_port_and_never_contradicts_it] result1 == nil ==> ((result0.Scheme == "http" ==> (result0.Port != "" && result0.Port != hsp())) && (result0.Scheme == "https" ==> (result0.Port != "" && result0.Port != hp())))
+//@   ensures [well_known_port_fixes_the_scheme_when_none_was_written] result1 == nil ==> (result0.Scheme == "" ==> (result0.Port != hp() && result0.Port != hsp()))
+//@   ensures [no_address_on_error] result1 != nil ==> result0.Original == ""
